@@ -20,18 +20,24 @@ def mask_level(ctx, rep):
     pairs = [(mu, lam) for mu in range(1, top + 1) for lam in range(1, top + 1) if ctx.tier != "quick" or (mu + lam) % 3 == 0 or mu == lam or mu <= 6 or lam <= 6]
     pairs.append((2048, 2048))
     pairs.append((1, 2048))
-    reqs, impl = [], []
+    reqs, impl, w0s = [], [], {}
     for mu, lam in pairs:
         m = es._get_selection_idx_mask_(mu, lam)
         tot = mu + lam
         sq = np.sqrt(np.arange(1, tot + 1))
         w0 = np.ceil((1.0 / sq) / np.sum(1.0 / sq) * lam).astype(int)
         reqs.append({"cmd": "srch.mask", "w0": [int(v) for v in w0], "lam": lam})
+        w0s[(mu, lam)] = [int(v) for v in w0]
         impl.append([int(v) for v in m])
     res = ctx.driver.call_many(reqs)
     hist = {}
     for (mu, lam), m, r in zip(pairs, impl, res):
         case = {"kind": "mask", "mu": mu, "lam": lam}
+        w0 = w0s[(mu, lam)]
+        if any(b > a for a, b in zip(w0, w0[1:])) or sum(w0) < lam or len(w0) != mu + lam:
+            # hypotheses of theorem Srch.mask_valid about the ORACLE weights (floating-point ceil of lambda/sqrt(i)/sum)
+            rep.disagree("hypotheses of Srch.mask_valid (initial weights non-increasing, sum >= lambda, mu + lambda of them)",
+                         f"mu={mu} lambda={lam}: w0={w0[:10]}.. sum={sum(w0)}", case)
         if r["mask"] != m:
             rep.disagree("Srch.selectionMask ~ _get_selection_idx_mask_", f"mu={mu} lambda={lam}: model {r['mask'][:12]}.. impl {m[:12]}..", case)
         ll = min(lam, mu)
@@ -154,26 +160,108 @@ def run_level(ctx, rep):
     return stats
 
 
+def hedge_level(ctx, rep, only=None):
+    """ESSearchHedge's probabilities for portfolios of 1..6 strategies (the default has 2) and arbitrary score histories - lopsided, close
+    leaders with laggards, huge, negative, decayed: the real __call__ (strategies stubbed out) vs Srch.hedgeProbs, and the property's clauses
+    (sums to 1, each probability at least the exploration floor hedge_gamma, the draw picks a strategy of the portfolio)."""
+    import pybads.search.search_hedge as sh
+    rng = ctx.sub_rng("c18hedge")
+
+    class Stub:
+        def __init__(self, *a, **k):
+            pass
+
+        def __call__(self, *a, **k):
+            return np.zeros((1, 1)), np.zeros(1)
+
+    cases = only or []
+    if only is None:
+        for _ in range(300 if ctx.quick else 5000):
+            n = rng.choice([1, 2, 2, 3, 3, 4, 5, 6])
+            gamma = rng.choice([0.125, 0.125, 0.05, 0.0, 1.0 / 6, 0.01])
+            if n * gamma > 1:
+                gamma = 1.0 / n
+            beta = rng.choice([1.0, 1.0, 1e-3, 10.0, 0.1])
+            kind = rng.choice(["initial", "leaders", "lopsided", "huge", "negative", "equal", "random"])
+            if kind == "initial":
+                g = [10.0] + [0.0] * (n - 1)
+            elif kind == "leaders":
+                top = rng.uniform(1, 8)
+                g = [top - rng.uniform(0, 1) for _ in range(max(1, n - 1))] + [0.0] * (n - max(1, n - 1))
+                rng.shuffle(g)
+            elif kind == "lopsided":
+                g = [rng.uniform(0, 0.01) for _ in range(n)]; g[rng.randrange(n)] = rng.uniform(5, 50)
+            elif kind == "huge":
+                g = [rng.uniform(0, 1) * 10.0 ** rng.randint(2, 6) for _ in range(n)]
+            elif kind == "negative":
+                g = [-rng.uniform(0, 20) for _ in range(n)]
+            elif kind == "equal":
+                g = [rng.choice([0.0, 3.5])] * n
+            else:
+                g = [rng.uniform(-5, 15) for _ in range(n)]
+            cases.append({"kind": "hedge", "n": n, "gamma": gamma, "beta": beta, "g": [float(v) for v in g], "r": rng.random()})
+    old = (sh.ESSearchWM, sh.ESSearchELL, np.random.rand)
+    impl = []
+    try:
+        sh.ESSearchWM = sh.ESSearchELL = Stub
+        for c in cases:
+            portfolio = [("ES-wcm" if i % 2 == 0 else "ES-ell", 1 if i < 2 else 0) for i in range(c["n"])]
+            h = sh.ESSearchHedge(portfolio, {"hedge_gamma": c["gamma"], "hedge_beta": c["beta"], "hedge_decay": 0.9, "n_search_iter": 2, "n_search": 32})
+            h.g = np.array(c["g"], dtype=float)
+            np.random.rand = lambda *a, _r=c["r"]: _r
+            try:
+                h(None, None, None, None, None, None)
+                impl.append(([float(v) for v in np.ravel(h.prob)], int(np.asarray(h.chosen_hedge).reshape(-1)[0])))
+            except Exception as ex:       # noqa
+                impl.append((None, f"{type(ex).__name__}: {str(ex)[:80]}"))
+            finally:
+                np.random.rand = old[2]
+    finally:
+        sh.ESSearchWM, sh.ESSearchELL, np.random.rand = old
+    reqs = []
+    for c in cases:
+        g = np.array(c["g"])
+        ee = np.exp(c["beta"] * (g - np.max(g)))
+        reqs.append({"cmd": "srch.hedge", "e": [enc(float(v)) for v in ee], "gamma": enc(c["gamma"])})
+    res = ctx.driver.call_many(reqs)
+    below = 0
+    for c, (p, chosen), m in zip(cases, impl, res):
+        if p is None:
+            rep.violation("hedge_distribution", SITE_H, f"hedge call failed with {chosen} for a portfolio of {c['n']} strategies, scores {c['g']}", c)
+            continue
+        mp = [float(Fraction(v)) for v in m["probs"]]
+        if len(mp) != len(p) or any(abs(a - b) > 1e-12 for a, b in zip(mp, p)):
+            rep.disagree("Srch.hedgeProbs ~ ESSearchHedge probabilities", f"portfolio of {c['n']}, gamma={c['gamma']}, beta={c['beta']}, scores {c['g']}: model {mp} impl {p}", c)
+        if abs(sum(p) - 1) > 1e-12 or any(v < c["gamma"] - 1e-15 for v in p) or not (0 <= chosen < c["n"]):
+            below += 1
+            rep.violation("hedge_distribution", SITE_H, f"portfolio of {c['n']} strategies, gamma={c['gamma']}, beta={c['beta']}, scores {c['g']}: probabilities {p} (chosen {chosen}) are not a proper "
+                          f"distribution with floor gamma", c)
+    return len(cases)
+
+
 def run(ctx):
     rep = Report()
     npairs, hist = mask_level(ctx, rep)
+    nhedge = hedge_level(ctx, rep)
     stats = run_level(ctx, rep)
     rep.coverage = {
-        "evaluations": npairs + stats["searches"], "distinct_nontrivial": npairs + stats["small_populations"] + stats["empty_generations"],
+        "evaluations": npairs + nhedge + stats["searches"], "hedge_cases": nhedge, "distinct_nontrivial": npairs + stats["small_populations"] + stats["empty_generations"],
         "rule": "mask: every (mu, lambda) up to the bound (all pairs <= 300 in the thorough tier; a structured subset in the quick tier) plus (2048, 2048): the real mask vs Srch.selectionMask on the same integer weights, "
-                "and the mask predicates; searches: every ES call of the traced runs - all surviving candidates of all generations (as passed to the acquisition function) vs the proposed point; hedge probabilities of every search step",
+                "and the mask predicates; searches: every ES call of the traced runs - all surviving candidates of all generations (as passed to the acquisition function) vs the proposed point; hedge probabilities of every search step; hedge function level: portfolios of 1..6 strategies x score histories (initial, close leaders + laggards, lopsided, huge, negative, equal, random) x gamma x beta",
         "samples": [{"mu": 5, "lam": 7}], "mask_pairs": npairs, "mask_clause_failures": hist, "run_level": stats,
         "traces_validated_against_impl": stats["runs"], "exhaustive": not ctx.quick,
     }
     rep.assumptions = ["cumsum rounding could leave the last partial sum below a uniform draw with probability ~1e-16: not modelled",
-                       "mask validity (length >= number of selected parents, indices < mu) is exhaustively TESTED up to the bound, the structural facts (first entry 0, unit steps, mask[k] <= k) are proved for all weights"]
+                       "mask validity (lambda + 1 entries, first min(lambda, mu) indices < mu) is PROVED for all (mu, lambda) in Srch.mask_valid under the hypothesis that the floating-point initial weights ceil(lambda / sqrt(i) / sum) are non-increasing and sum to >= lambda; that hypothesis, and the equality of the real mask with the model's, are checked on every enumerated pair"]
     return rep
 
 
 def replay(ctx, data):
     rep = Report()
     c = data["case"]
-    if c.get("kind") == "search_run":
+    if c.get("kind") == "hedge":
+        hedge_level(ctx, rep, only=[c])
+    elif c.get("kind") == "search_run":
         from .. import tracer
         ctx._pool = [tracer.run_traced(c["spec"])]
         ctx._replaying = True
